@@ -1409,7 +1409,10 @@ class ServerOptions(Options):
             os.setgid(gid)
         except OSError:
             return 'Could not set group id of effective user'
-        os.setuid(uid)
+        try:
+            os.setuid(uid)
+        except OSError:
+            return 'Could not set user id of effective user'
 
     def set_uid_or_exit(self):
         """Set the uid of the supervisord process.  Called during supervisord
